@@ -112,7 +112,7 @@ def run(F, chk):
                         if atom[0] != "call":
                             return False
                         cal, t = atom[1], atom[2]
-                        if not (cal.endswith("PartialEq::ne") or cal.endswith("PartialEq::eq") or "::ne" in cal or "::eq" in cal):
+                        if not (t.get("fn") in ("core::cmp::PartialEq::ne", "core::cmp::PartialEq::eq")):
                             return False
                         sl = guards.slice_of_operand(b, t["args"][0])
                         if not lib.has_field(sl, "UdpFlow", "phase"):
@@ -125,7 +125,7 @@ def run(F, chk):
                                     val = F.promoted_value(b, d[3]["a"]["promoted"])
                         if val != ("variant", "sozu_lib::protocol::udp::flow::FlowPhase", "AwaitingBackend"):
                             return False
-                        is_ne = "ne" in cal.split("::")[-1]
+                        is_ne = t.get("fn").endswith("::ne")
                         return truth == (not is_ne) if False else (truth is (not is_ne))
                     edges = lib.edges_where(b, aw_pred)
                     if edges and lib.guarded_by(b, bi, edges):
